@@ -427,6 +427,16 @@ func openFaultPhase(ref *harness.Runner, c map[string]int) (v *harness.Violation
 						}
 					}
 					f.Close()
+					if vv == nil && d.Injected() > 0 {
+						// The failure was tolerated (e.g. the optional transaction that releases regions beyond
+						// a reduced limit). Whatever that attempt left in the file must not become visible later:
+						// a transaction flushes pages and is abandoned, then the file is reopened.
+						d2 := simdisk.FromImage("resizefault2", img)
+						d2.SetRecord(false)
+						d2.Arm(&simdisk.Fault{Kind: k, Ordinal: ord, Burst: 1, NoSpace: k == simdisk.CallTruncate})
+						vv = abandonedTxAfterTolerantOpen(d2, ropts, model, int(pageSize))
+						c["resize-open-fault-abandoned-tx"]++
+					}
 					if vv != nil {
 						vv.Msg = fmt.Sprintf("Open with max-size update #%d and failing %s call #%d returned success, but: %s", vi, k, ord, vv.Msg)
 						return vv
@@ -451,4 +461,73 @@ func openFaultPhase(ref *harness.Runner, c map[string]int) (v *harness.Violation
 		}
 	}
 	return nil
+}
+
+// abandonedTxAfterTolerantOpen: Open (with a max-size update and one tolerated I/O failure), then a
+// write transaction that allocates, writes and flushes pages and overwrites committed pages, but is
+// closed without Commit; after closing and reopening the file the committed state must be intact.
+func abandonedTxAfterTolerantOpen(d *simdisk.Disk, ropts txfile.Options, model *harness.MState, ps int) (v *harness.Violation) {
+	defer func() {
+		if x := recover(); x != nil {
+			v = &harness.Violation{Clause: "open-fault-panic", Item: -1, Msg: fmt.Sprintf("panic in a transaction / reopen after a tolerated failure during Open: %v [%s]", x, harness.TrimStack(debug.Stack()))}
+		}
+	}()
+	f, err := txfile.VerifOpen(d, ropts)
+	if err != nil {
+		return nil // not the tolerated path (call numbering differs): nothing to check
+	}
+	d.Arm(nil)
+	tx, err := f.BeginWith(txfile.TxOptions{EnableOverflowArea: true})
+	if err != nil {
+		f.Close()
+		return &harness.Violation{Clause: "open-fault-usable", Item: -1, Msg: fmt.Sprintf("Begin failed: %v", err)}
+	}
+	if pages, err := tx.AllocN(6); err == nil {
+		for _, pg := range pages {
+			pg.SetBytes(harness.Content(960000+int(pg.ID()), ps))
+		}
+	}
+	n := 0
+	for _, mp := range model.Pages {
+		if mp.Data == nil || n >= 6 {
+			continue
+		}
+		if pg, err := tx.Page(mp.ID); err == nil {
+			pg.SetBytes(harness.Content(970000+n, ps))
+			n++
+		}
+	}
+	tx.Flush()
+	f.VerifDrainWriter()
+	tx.Close()
+	f.Close()
+	f, err = txfile.VerifOpen(d, txfile.Options{})
+	if err != nil {
+		return &harness.Violation{Clause: "reopen-after-faults", Item: -1, Msg: fmt.Sprintf("a transaction was abandoned after the Open; the next clean Open failed: %v", err)}
+	}
+	vv := harness.VerifyAgainst(f, model, -1)
+	if vv == nil {
+		snap := f.VerifState()
+		vv = harness.CheckPartition(&snap, model, -1, false)
+	}
+	if vv == nil {
+		var tx *txfile.Tx
+		if tx, err = f.Begin(); err == nil {
+			if pg, e := tx.Alloc(); e == nil {
+				pg.SetBytes(harness.Content(980000, ps))
+			}
+			err = tx.Commit()
+		}
+		if err != nil && !harness.IsOOM(err) {
+			vv = &harness.Violation{Clause: "open-fault-usable", Item: -1, Msg: fmt.Sprintf("write transaction after the reopen failed: %v", err)}
+		}
+		if vv == nil {
+			vv = harness.VerifyAgainst(f, model, -1)
+		}
+	}
+	f.Close()
+	if vv != nil {
+		vv.Msg = "a transaction that flushed pages was abandoned after the Open, then the file was reopened: " + vv.Msg
+	}
+	return vv
 }
